@@ -204,11 +204,90 @@ theorem splitOn_core (st : St) (ci : Nat) (ia : Array Nat)
     st.fuelOut = false := by
   have hci := active_lt _ _ hact
   unfold St.splitOn St.split at hfo ⊢
-  simp only [St.refreshBlock, St.markDeleted] at hfo ⊢
+  simp only [St.refreshBlock, St.markDeleted, St.pushInactive] at hfo ⊢
   simp only [Bool.or_eq_false_iff, Bool.not_eq_false'] at hfo
   obtain ⟨⟨hf0, hok1⟩, hok2⟩ := hfo
   obtain ⟨c1, c2, c3⟩ := split_core st.vars st.cons st.blocks.size ia h ci hci hact
     (st.vars.size + 1) #[] #[] hok1 hok2
   refine ⟨by simpa using c1, c2, c3, by omega, trivial, hf0⟩
+
+/-! ### splitBlocks -/
+
+/-- the split step, seen from any state that agrees with its result on the components the
+    invariant reads -/
+theorem splitOn_J (st : St) (ci : Nat) (h : J st) (hact : (st.cons[ci]!).active = true)
+    (st' : St)
+    (hv : st'.vars = (st.splitOn (blk st.vars (st.cons[ci]!).l) ci).1.vars)
+    (hc : st'.cons = (st.splitOn (blk st.vars (st.cons[ci]!).l) ci).1.cons)
+    (hb : st'.blocks.size = (st.splitOn (blk st.vars (st.cons[ci]!).l) ci).1.blocks.size)
+    (hi : st'.inactive = (st.splitOn (blk st.vars (st.cons[ci]!).l) ci).1.inactive)
+    (hf : st'.fuelOut = (st.splitOn (blk st.vars (st.cons[ci]!).l) ci).1.fuelOut) : J st' := by
+  by_cases hfo : st'.fuelOut = true
+  · exact Or.inl hfo
+  · right
+    have hfo' : (st.splitOn (blk st.vars (st.cons[ci]!).l) ci).1.fuelOut = false := by
+      rw [← hf]; simpa using hfo
+    -- first get `st.fuelOut = false` (with a dummy inactive list the invariant is not needed for it)
+    have hf0 : st.fuelOut = false := by
+      rcases h with h | h
+      · -- fuelOut only grows
+        have : (st.splitOn (blk st.vars (st.cons[ci]!).l) ci).1.fuelOut = true := by
+          unfold St.splitOn St.split
+          simp [St.refreshBlock, St.markDeleted, St.pushInactive, h]
+        rw [this] at hfo'
+        exact absurd hfo' (by simp)
+      · by_contra hne
+        have h1 : st.fuelOut = true := by simpa using hne
+        have : (st.splitOn (blk st.vars (st.cons[ci]!).l) ci).1.fuelOut = true := by
+          unfold St.splitOn St.split
+          simp [St.refreshBlock, St.markDeleted, St.pushInactive, h1]
+        rw [this] at hfo'
+        exact absurd hfo' (by simp)
+    obtain ⟨c1, _, _, _, c5, _⟩ := splitOn_core st ci st.inactive (J.inv h hf0) hact hfo'
+    unfold VpscInv.Inv
+    rw [hv, hc, hb, hi, c5]
+    exact c1
+
+theorem splitBlockStep_J (st : St) (i : Nat) (h : J st) : J (st.splitBlockStep i) := by
+  unfold St.splitBlockStep
+  simp only
+  obtain ⟨f1, f2, f3, f4, f5, f6⟩ := findMinLM_spec st st.order[i]!
+  have hJ1 : J (st.findMinLM st.order[i]!).1 := J.of_core f1 f2 (by rw [f3]) f4 f5 h
+  split
+  · exact hJ1
+  · rename_i ci lmv gap hm
+    have hact := f6 ci lmv gap hm
+    split
+    · generalize hst2 : ((st.findMinLM st.order[i]!).1.note (lmv - LAGRANGIAN_TOLERANCE)).note gap = st2
+      have hJ2 : J st2 := by
+        subst hst2
+        exact J.of_core (st := (st.findMinLM st.order[i]!).1) rfl rfl rfl rfl (fun hh => hh) hJ1
+      have hact2 : (st2.cons[ci]!).active = true := by
+        subst hst2
+        have : (((st.findMinLM st.order[i]!).1.note (lmv - LAGRANGIAN_TOLERANCE)).note gap).cons = st.cons := f2
+        rw [this]; exact hact
+      apply splitOn_J st2 ci hJ2 hact2 <;> simp only [St.incSplit, St.insertBlocks] <;> rfl
+    · exact J.of_core (st := (st.findMinLM st.order[i]!).1) rfl rfl rfl rfl (fun hh => hh) hJ1
+
+theorem foldl_J {α : Type} (f : St → α → St) (hf : ∀ st a, J st → J (f st a)) :
+    ∀ (l : List α) (st : St), J st → J (l.foldl f st) := by
+  intro l
+  induction l with
+  | nil => intro st h; exact h
+  | cons a l ih => intro st h; exact ih _ (hf st a h)
+
+theorem cleanup_core (st : St) :
+    st.cleanup.vars = st.vars ∧ st.cleanup.cons = st.cons ∧ st.cleanup.blocks = st.blocks ∧
+    st.cleanup.inactive = st.inactive ∧ st.cleanup.fuelOut = st.fuelOut :=
+  ⟨rfl, rfl, rfl, rfl, rfl⟩
+
+theorem splitBlocks_J (st : St) (h : J st) : J st.splitBlocks := by
+  unfold St.splitBlocks
+  simp only
+  obtain ⟨a, b, c, d, e⟩ := moveBlocks_core st
+  have h1 : J st.moveBlocks := J.of_core a b c d (fun hh => by rw [← e]; exact hh) h
+  have h2 := foldl_J St.splitBlockStep splitBlockStep_J (List.range st.moveBlocks.order.size) _ h1
+  exact J.of_core (st := (List.range st.moveBlocks.order.size).foldl St.splitBlockStep st.moveBlocks)
+    rfl rfl rfl rfl (fun hh => hh) h2
 
 end AdaptaVerif.Lemmas.VpscLoop
